@@ -28,11 +28,40 @@ def run(ck):
     else:
         incr.crash_check(ck, d, n_scenarios=16, offsets_mode='all')       # every byte offset of 16 records
         incr.crash_check(ck, d, n_scenarios=34, offsets_mode='sample')    # ~20 offsets of 34 more
+    builder_correspondence(ck, d)
     incr.blackbox_c05(ck, d, thorough=not quick)
     from slices import engine
     engine.two_invocations(ck, 'C05', n_quick=10, fail_p=0.8)
     incr.flush(ck)
     vf.sh(['rm', '-rf', d])
+
+
+def builder_correspondence(ck, d):
+    """engine::builder::build_target (real /bin/sh children) vs Builder.build_report: every exit code 0..255, the shell killing
+    itself with each catchable and uncatchable signal, cancellation while running, spawn failure"""
+    import os
+    cf = os.path.join(d, 'builder_cases.txt')
+    cases = ['E%d' % c for c in range(256)] + ['K%d' % sg for sg in (1, 2, 3, 6, 8, 9, 10, 11, 12, 13, 14, 15)] + ['X', 'X', 'N']
+    with open(cf, 'w') as f:
+        for i, how in enumerate(cases):
+            f.write('U u%d %s\n' % (i, how))
+    rc, impl, err = vf.run_impl('builder', cf, env={'ZINOMA_VERIF_SCRATCH': os.path.join(d, 'builder')}, timeout=600)
+    impl = vf.by_id(impl)
+    model = vf.by_id(vf.run_model('builder', cf))
+    ck.rule('builder: the real build_target on `/bin/sh -ce` scripts that exit with every code 0..255, kill their own shell with '
+            'signals 1 2 3 6 8 9 10 11 12 13 14 15, are cancelled while running, or cannot be spawned, vs Builder.build_report '
+            '(completed / cancelled / failed)')
+    for i, how in enumerate(cases):
+        cid = 'u%d' % i
+        m, r = model.get(cid), impl.get(cid)
+        ck.count(('builder', how, i if how == 'X' else 0), sample={'how the script ends': how, 'model': m, 'implementation': r})
+        ck.tally('builder:' + (m or '?'))
+        if m != r:
+            ck.violation({'kind': 'builder', 'what': 'a script that ends as %s is reported as %r by the real build_target, the model '
+                                                     '(Builder.build_report; C05_completed_iff_exit_zero) says %r' % (how, r, m),
+                          'script_end': how, 'replay': 'ZINOMA_VERIF=builder on the line: U x %s (E<n> = exit n, K<n> = kill -s n $$, '
+                                                       'X = cancelled, N = unspawnable)' % how},
+                         found_input=(r == 'completed' and m != 'completed'))
 
 
 def replay(ck, path):
